@@ -236,4 +236,62 @@ Proof.
       { apply nth_error_Some. intros E. pose proof (eq_trans (eq_sym E) Hi') as X. discriminate X. }
       lia.
 Qed.
+
+(* ---------- the model against a compiled dictionary ---------- *)
+Lemma remove1_in {A} (eqb : A -> A -> bool) (Heq : forall x y, eqb x y = true -> x = y) x :
+  forall l l', remove1 eqb x l = Some l' -> forall y, In y l <-> (y = x \/ In y l').
+Proof.
+  induction l as [|z t IH]; intros l' H y; cbn [remove1] in H; [discriminate|].
+  destruct (eqb x z) eqn:E.
+  - injection H as <-. apply Heq in E. subst z. cbn [In]. split; intros [H|H]; auto.
+  - destruct (remove1 eqb x t) as [t'|] eqn:Er; [|discriminate]. injection H as <-.
+    cbn [In]. rewrite (IH t' eq_refl y). tauto.
+Qed.
+
+Lemma perm_b_in {A} (eqb : A -> A -> bool) (Heq : forall x y, eqb x y = true -> x = y) :
+  forall l1 l2, perm_b eqb l1 l2 = true -> forall y, In y l1 <-> In y l2.
+Proof.
+  induction l1 as [|x t IH]; intros l2 H y; cbn [perm_b] in H.
+  - destruct l2; [reflexivity|discriminate].
+  - destruct (remove1 eqb x l2) as [l2'|] eqn:Er; [|discriminate].
+    rewrite (remove1_in eqb Heq x l2 l2' Er y). cbn [In]. rewrite (IH l2' H y). split; intros [Hx|Hx]; auto.
+Qed.
+
+Lemma kv_eqb_eq a b : kv_eqb a b = true -> a = b.
+Proof.
+  destruct a as [k v], b as [k' v']. unfold kv_eqb. cbn [fst snd]. rewrite andb_true_iff, bytes_eqb_true, N.eqb_eq.
+  intros [-> ->]. reflexivity.
+Qed.
+
+(* when the model of IndexBuilder reproduces the table section byte for byte and the verified enumerator reads exactly the
+   model's (key, offset) pairs out of the trie section, the dictionary is certified: the only component of the index that is
+   validated per dictionary rather than proved is the yada builder *)
+Lemma index_cert_prop L rows fuel :
+  layout_ok = true -> Generated.TrieBits.WID_MAX_GROUP <= 255 -> N.of_nat (length rows) <= 268435456 ->
+  index_cert L rows fuel = true -> cert_prop L rows fuel.
+Proof.
+  intros HL HM Hlen Hc. unfold index_cert in Hc.
+  destruct (index_table rows) as [[tbl kos]|] eqn:Et; [|discriminate].
+  destruct (keys_of (lx_trie L) fuel) as [ks|] eqn:Ek; [|discriminate].
+  apply andb_true_iff in Hc. destruct Hc as [Htbl Hperm]. apply list_eqb_N_eq in Htbl. subst tbl.
+  pose proof (perm_b_in kv_eqb kv_eqb_eq kos ks Hperm) as Hp.
+  destruct (index_table_spec rows _ kos HM ltac:(lia) Et) as (_ & Hko & Hrows).
+  exists ks. split; [exact Ek|]. split.
+  - intros k v Hin. apply Hp in Hin. destruct (Hko k v Hin) as [Hne He]. split; [exact Hne|]. split; [exact He|].
+    apply Forall_forall. intros r Hr. apply rows_with_bound in Hr.
+    destruct (layout_facts HL) as (_ & _ & _ & E4 & _). rewrite E4, N.land_ones. apply N.mod_small.
+    change (2 ^ 28) with 268435456. lia.
+  - intros r Hr Hi. destruct (Hrows r Hr Hi) as [o Ho]. exists o. apply Hp. exact Ho.
+Qed.
+
+(* hence lookup = naive CSV scan for every byte text and offset, from the model-based certificate alone *)
+Lemma lex_lookup_exact_of_index_cert L rows fuel :
+  layout_ok = true -> Generated.TrieBits.WID_MAX_GROUP <= 255 -> N.of_nat (length rows) <= 268435456 ->
+  index_cert L rows fuel = true ->
+  forall dic text off, N.land dic Generated.LexFacts.DIC_MASK = dic -> bytes text ->
+  exists l, lex_lookup L dic text off = Some l /\
+            forall w e, In (w, e) l <-> In (w, e) (naive_lex dic rows text off).
+Proof.
+  intros HL HM Hlen Hc. exact (lex_lookup_exact_of_cert_prop L rows fuel (index_cert_prop L rows fuel HL HM Hlen Hc)).
+Qed.
 End Shapes.
